@@ -201,11 +201,19 @@ func (m *Membership) RequestOrderedCommittee(ctx context.Context, h primitives.B
 			return nil, err
 		}
 	}
-	return m.Committee(uint64(h)), nil
+	return copyCommittee(m.Committee(uint64(h))), nil
 }
 
 func (m *Membership) RequestCommitteeForBlockProof(ctx context.Context, h primitives.BlockHeight, t primitives.TimestampSeconds) ([]interfaces.CommitteeMember, error) {
-	return m.Committee(uint64(h)), nil
+	return copyCommittee(m.Committee(uint64(h))), nil
+}
+
+// every call hands out a fresh slice: the consumer owns its committee list, the library must not rely on (or alter) a shared one
+func copyCommittee(c []interfaces.CommitteeMember) []interfaces.CommitteeMember {
+	if c == nil {
+		return nil
+	}
+	return append([]interfaces.CommitteeMember{}, c...)
 }
 
 // ---------------------------------------------------------------- storage recorder
